@@ -673,13 +673,12 @@ tx_outs:\n{tx_outs}
 
     def initialize_p2tr_multisig(self, input_index, control_block, tap_script):
         tx_in = self.tx_ins[input_index]
-        if len(tx_in.witness.items) == 0:
-            tx_in.witness = Witness(
-                [tap_script.raw_serialize(), control_block.serialize()]
-            )
-            if type(tap_script) is not MultiSigTapScript:
-                raise RuntimeError("tap script must be MultiSigTapScript")
-            tx_in.tap_script = tap_script
+        if type(tap_script) is not MultiSigTapScript:
+            raise RuntimeError("tap script must be MultiSigTapScript")
+        # (re)start from this leaf: whatever an earlier initialization (possibly for
+        # another leaf) or signing attempt left in the witness is dropped
+        tx_in.witness = Witness([tap_script.raw_serialize(), control_block.serialize()])
+        tx_in.tap_script = tap_script
 
     def finalize_p2tr_multisig(self, input_index, sigs):
         tx_in = self.tx_ins[input_index]
